@@ -1,11 +1,1083 @@
-//! C13 -- not built yet (stub so the crate layout is stable).
-use crate::engine::report::{Ctx, Report};
-use serde_json::Value;
+//! C13 -- colour quantisation: bounded palette, valid indices, exact nearest-colour search.
+//!
+//! Exhaustive sweeps of the real code (`Image::quantize`, `ColorPalette::{new, find, ...}`):
+//!  (1a) every image of <= 4 (quick) / <= 6 (thorough) pixels over a 12-colour alphabet, in every
+//!       rectangular arrangement, plain and as a crop of a larger poisoned image, x requested
+//!       sizes {1..=10, 256} x dither on/off x backgrounds;
+//!  (1b) every *multiset* image over the same alphabet with each colour occurring 0..=2
+//!       (thorough also 0..=3) times -- up to 12 distinct colours, which is what makes the
+//!       octree prune (the <= 6 pixel images of (1a) never reach the pruning loop);
+//!  (1c) a small family of periodic images large enough to be subsampled;
+//!  (2a) every palette of 1..=3 colours over {0,85,170,255}^3 x every query of {0,64,128,192,255}^3;
+//!  (2b) structured palettes of 2..=512 colours x ALL 2^24 queries against brute force.
+//! Every quantisation runs under a watchdog: a case that does not finish is a violation.
+use crate::engine::catch;
+use crate::engine::report::{Ctx, Report, Samples, Tier, Violation, Violations};
+use crate::engine::util::hash64;
+use rayon::prelude::*;
+use serde_json::{json, Value};
+use std::sync::atomic::{AtomicBool, AtomicU64, Ordering};
+use std::sync::{mpsc, Arc, Mutex};
+use std::time::{Duration, Instant};
+use surf_n_term::surface::{Surface, SurfaceOwned};
+use surf_n_term::{Color, ColorPalette, Image, Size, RGBA};
 
-pub fn run(_ctx: &Ctx) -> Result<Report, String> {
-    Err("C13: check not built yet".into())
+// ---------------------------------------------------------------------------------------
+// alphabet
+// ---------------------------------------------------------------------------------------
+
+/// 12 colours chosen to exercise the octree: four siblings in one deepest node (differ in bit 0
+/// of one channel), a colour differing from them in bit 7 of one channel only, a pair differing
+/// in bit 1, saturated colours in different top-level octants, and three non-opaque colours.
+pub const ALPHABET: [[u8; 4]; 12] = [
+    [16, 16, 16, 255],
+    [17, 16, 16, 255],
+    [16, 17, 16, 255],
+    [16, 16, 17, 255],
+    [16, 16, 144, 255],
+    [200, 200, 200, 255],
+    [202, 200, 200, 255],
+    [255, 0, 0, 255],
+    [0, 255, 0, 255],
+    [255, 0, 0, 128],
+    [0, 0, 255, 0],
+    [90, 160, 30, 200],
+];
+
+const POISON: [u8; 4] = [1, 254, 77, 255];
+
+/// backgrounds: None (= opaque black by the API's default), opaque white, a translucent one
+const BACKGROUNDS: [Option<[u8; 4]>; 3] = [None, Some([255, 255, 255, 255]), Some([10, 200, 30, 128])];
+
+const SIZES: [usize; 11] = [1, 2, 3, 4, 5, 6, 7, 8, 9, 10, 256];
+/// requested sizes used for the multiset images (1..=8 all mean "prune to 8")
+const MULTI_SIZES: [usize; 7] = [1, 5, 8, 9, 10, 11, 256];
+
+fn rgba(c: [u8; 4]) -> RGBA {
+    RGBA::new(c[0], c[1], c[2], c[3])
 }
 
-pub fn replay(_w: &Value) -> Result<(bool, String), String> {
-    Err("C13: check not built yet".into())
+fn dist(a: [u8; 3], b: [u8; 3]) -> i64 {
+    let d = |x: u8, y: u8| (x as i64 - y as i64) * (x as i64 - y as i64);
+    d(a[0], b[0]) + d(a[1], b[1]) + d(a[2], b[2])
+}
+
+// ---------------------------------------------------------------------------------------
+// one quantisation case
+// ---------------------------------------------------------------------------------------
+
+/// deterministic total order used to pick the witness reported for a finding key
+type Rank = (u64, u64, u64);
+
+#[derive(Debug, Clone, PartialEq)]
+pub struct QCase {
+    pub h: usize,
+    pub w: usize,
+    /// row-major pixels
+    pub pixels: Vec<[u8; 4]>,
+    pub size: usize,
+    pub dither: bool,
+    pub bg: Option<[u8; 4]>,
+    /// quantise a crop(1..-1, 1..-1) of the image surrounded by a poison border
+    pub crop: bool,
+}
+
+impl QCase {
+    fn rank(&self) -> Rank {
+        let bg = BACKGROUNDS.iter().position(|b| *b == self.bg).unwrap_or(9) as u64;
+        (
+            self.pixels.len() as u64 * 2 + self.crop as u64,
+            self.size as u64 * 100 + self.dither as u64 * 10 + bg,
+            hash64(&(self.h, self.w, &self.pixels)),
+        )
+    }
+    fn json(&self) -> Value {
+        json!({
+            "kind": "quantize",
+            "h": self.h, "w": self.w,
+            "pixels": self.pixels.iter().map(|p| p.to_vec()).collect::<Vec<_>>(),
+            "size": self.size, "dither": self.dither,
+            "bg": self.bg.map(|b| b.to_vec()),
+            "crop": self.crop,
+        })
+    }
+    fn from_json(v: &Value) -> Result<Self, String> {
+        let px = |p: &Value| -> Result<[u8; 4], String> {
+            let a = p.as_array().ok_or("pixel")?;
+            if a.len() != 4 {
+                return Err("pixel".into());
+            }
+            let mut o = [0u8; 4];
+            for i in 0..4 {
+                o[i] = a[i].as_u64().ok_or("pixel")? as u8;
+            }
+            Ok(o)
+        };
+        Ok(QCase {
+            h: v["h"].as_u64().ok_or("h")? as usize,
+            w: v["w"].as_u64().ok_or("w")? as usize,
+            pixels: v["pixels"].as_array().ok_or("pixels")?.iter().map(px).collect::<Result<_, _>>()?,
+            size: v["size"].as_u64().ok_or("size")? as usize,
+            dither: v["dither"].as_bool().ok_or("dither")?,
+            bg: if v["bg"].is_null() { None } else { Some(px(&v["bg"])?) },
+            crop: v["crop"].as_bool().unwrap_or(false),
+        })
+    }
+    fn image(&self) -> Image {
+        if !self.crop {
+            let (w, px) = (self.w, &self.pixels);
+            Image::from(SurfaceOwned::new_with(Size::new(self.h, self.w), |p| rgba(px[p.row * w + p.col])))
+        } else {
+            let (h, w, px) = (self.h, self.w, &self.pixels);
+            let big = Image::from(SurfaceOwned::new_with(Size::new(h + 2, w + 2), |p| {
+                if p.row == 0 || p.col == 0 || p.row == h + 1 || p.col == w + 1 {
+                    rgba(POISON)
+                } else {
+                    rgba(px[(p.row - 1) * w + (p.col - 1)])
+                }
+            }));
+            big.crop(1..-1, 1..-1)
+        }
+    }
+    /// the pixel as the quantiser must see it: composited over the background when not opaque.
+    /// Compositing itself is `rasterize::Color::blend_over` (external crate, trusted).
+    fn composited(&self) -> Vec<[u8; 3]> {
+        let bg = self.bg.map(rgba).unwrap_or_else(|| RGBA::new(0, 0, 0, 255));
+        self.pixels
+            .iter()
+            .map(|p| if p[3] < 255 { bg.blend_over(rgba(*p)).to_rgb() } else { [p[0], p[1], p[2]] })
+            .collect()
+    }
+}
+
+#[derive(Debug, Default, Clone)]
+pub struct QInfo {
+    distinct: usize,
+    palette: usize,
+    pruned: bool,
+    /// palette smaller than both the number of distinct colours and the allowed maximum
+    overpruned: bool,
+}
+
+/// Oracle for one finished quantisation. Err((kind, detail)) on violation.
+fn judge(c: &QCase, res: Option<(ColorPalette, SurfaceOwned<usize>)>) -> Result<QInfo, (String, String)> {
+    let comp = c.composited();
+    let mut distinct: Vec<[u8; 3]> = comp.clone();
+    distinct.sort();
+    distinct.dedup();
+    let bound = c.size.max(8);
+    let (pal, qimg) = match res {
+        Some(r) => r,
+        None => return Err(("none-for-nonempty".into(), format!("quantize returned None for a {}x{} image", c.h, c.w))),
+    };
+    let colors: Vec<[u8; 3]> = pal.colors().iter().map(|p| p.to_rgb()).collect();
+    if pal.size() != colors.len() {
+        return Err(("palette-size-accessor".into(), format!("size() = {} but colors() has {} entries", pal.size(), colors.len())));
+    }
+    if colors.is_empty() || colors.len() > bound {
+        return Err((
+            "palette-bound".into(),
+            format!("palette has {} colours, allowed 1..={} (requested {})", colors.len(), bound, c.size),
+        ));
+    }
+    if qimg.size() != Size::new(c.h, c.w) {
+        return Err(("index-image-size".into(), format!("index image is {:?}, image is {}x{}", qimg.size(), c.h, c.w)));
+    }
+    let idx: Vec<usize> = qimg.iter().copied().collect();
+    if idx.len() != c.h * c.w {
+        return Err(("index-image-size".into(), format!("index image has {} entries for {} pixels", idx.len(), c.h * c.w)));
+    }
+    for (k, i) in idx.iter().enumerate() {
+        if *i >= colors.len() {
+            return Err((
+                "index-out-of-range".into(),
+                format!("pixel {} has index {} but the palette has {} colours", k, i, colors.len()),
+            ));
+        }
+    }
+    if !c.dither {
+        for (k, i) in idx.iter().enumerate() {
+            let got = dist(comp[k], colors[*i]);
+            let best = colors.iter().map(|p| dist(comp[k], *p)).min().unwrap();
+            if got != best {
+                return Err((
+                    "not-nearest".into(),
+                    format!(
+                        "pixel {} (composited {:?}) mapped to entry {} {:?} at squared distance {}, but an entry at {} exists; palette {:?}",
+                        k, comp[k], i, colors[*i], got, best, colors
+                    ),
+                ));
+            }
+        }
+    }
+    let not_subsampled = c.h * c.w < 200 * c.size;
+    if distinct.len() <= c.size && not_subsampled {
+        for (k, i) in idx.iter().enumerate() {
+            if colors[*i] != comp[k] {
+                return Err((
+                    if c.dither { "not-exact-dither".into() } else { "not-exact".into() },
+                    format!(
+                        "{} distinct colours fit the requested {} but pixel {} (composited {:?}) is reproduced as {:?}; palette {:?}",
+                        distinct.len(), c.size, k, comp[k], colors[*i], colors
+                    ),
+                ));
+            }
+        }
+    }
+    Ok(QInfo {
+        distinct: distinct.len(),
+        palette: colors.len(),
+        pruned: distinct.len() > bound && not_subsampled,
+        overpruned: not_subsampled && colors.len() < distinct.len().min(bound),
+    })
+}
+
+/// Run one case on the real code (no watchdog here) and judge it.
+fn eval_q(c: &QCase) -> Result<QInfo, (String, String)> {
+    let img = c.image();
+    match catch(|| img.quantize(c.size, c.dither, c.bg.map(rgba))) {
+        Err(p) => Err((p.key(), format!("quantize panicked: {} ({}:{})", p.message, p.file, p.line))),
+        Ok(res) => judge(c, res),
+    }
+}
+
+// ---------------------------------------------------------------------------------------
+// watchdog
+// ---------------------------------------------------------------------------------------
+
+const HANG_SECS: u64 = 20;
+
+#[derive(Default)]
+struct Slot {
+    cur: Mutex<Option<(Instant, QCase)>>,
+}
+
+struct Watch {
+    slots: Vec<Slot>,
+    extra: Slot,
+}
+
+impl Watch {
+    fn new(n: usize) -> Self {
+        Watch { slots: (0..n).map(|_| Slot::default()).collect(), extra: Slot::default() }
+    }
+    fn slot(&self) -> &Slot {
+        match rayon::current_thread_index() {
+            Some(i) if i < self.slots.len() => &self.slots[i],
+            _ => &self.extra,
+        }
+    }
+    fn enter(&self, c: &QCase) {
+        *self.slot().cur.lock().unwrap() = Some((Instant::now(), c.clone()));
+    }
+    fn leave(&self) {
+        *self.slot().cur.lock().unwrap() = None;
+    }
+    fn stuck(&self) -> Option<QCase> {
+        for s in self.slots.iter().chain(std::iter::once(&self.extra)) {
+            if let Some((t, c)) = &*s.cur.lock().unwrap() {
+                if t.elapsed() > Duration::from_secs(HANG_SECS) {
+                    return Some(c.clone());
+                }
+            }
+        }
+        None
+    }
+}
+
+/// Run a single case in its own thread with a time budget: None = did not finish.
+fn eval_q_timed(c: &QCase, secs: u64) -> Option<Result<QInfo, (String, String)>> {
+    let (tx, rx) = mpsc::channel();
+    let c2 = c.clone();
+    std::thread::spawn(move || {
+        let _ = tx.send(eval_q(&c2));
+    });
+    rx.recv_timeout(Duration::from_secs(secs)).ok()
+}
+
+// ---------------------------------------------------------------------------------------
+// shared sweep state
+// ---------------------------------------------------------------------------------------
+
+struct Shared {
+    /// per finding key the violation of minimal rank (deterministic whatever the thread
+    /// interleaving; witnesses are only built for candidates that improve on the best so far,
+    /// so a defect that fails millions of cases does not slow the sweep down)
+    best: std::sync::RwLock<std::collections::HashMap<String, (Rank, Violation)>>,
+    raw_viol: AtomicU64,
+    samples: Mutex<Option<Samples>>,
+    sample_filter: Samples,
+    watch: Watch,
+    seed: u64,
+    q_evals: AtomicU64,
+    q_pruned: AtomicU64,
+    q_overpruned: AtomicU64,
+    q_exact_claims: AtomicU64,
+    q_alpha: AtomicU64,
+    find_evals: AtomicU64,
+    find_nontrivial: AtomicU64,
+    find_ties: AtomicU64,
+    /// most drastic over-pruning seen: (palette size * 1000 / allowed, case)
+    worst_overprune: Mutex<Option<(u64, Value)>>,
+    worst_score: AtomicU64,
+    phase_secs: Mutex<Vec<(String, f64)>>,
+    palette_sizes_seen: Mutex<std::collections::BTreeSet<usize>>,
+    stop: AtomicBool,
+}
+
+#[derive(Default)]
+struct Local {
+    evals: u64,
+    pruned: u64,
+    overpruned: u64,
+    exact: u64,
+    alpha: u64,
+    sizes: u64, // bit mask of palette sizes 0..63
+}
+
+impl Shared {
+    fn add_ranked(&self, key: String, rank: Rank, make: impl FnOnce() -> (String, Value)) {
+        self.raw_viol.fetch_add(1, Ordering::Relaxed);
+        if let Some((r, _)) = self.best.read().unwrap().get(&key) {
+            if *r <= rank {
+                return;
+            }
+        }
+        let (what, witness) = make();
+        let mut g = self.best.write().unwrap();
+        match g.get(&key) {
+            Some((r, _)) if *r <= rank => {}
+            _ => {
+                g.insert(key.clone(), (rank, Violation { key, what, witness }));
+            }
+        }
+    }
+    fn add_find(&self, kind: &str, colors: &[[u8; 3]], q: [u8; 3], name: &str, detail: String) {
+        let rank = (colors.len() as u64, hash64(colors), (q[0] as u64) << 16 | (q[1] as u64) << 8 | q[2] as u64);
+        self.add_ranked(format!("find:{}", kind), rank, || {
+            (format!("palette {} ({} colours): {}", name, colors.len(), detail), find_witness(colors, q, name))
+        });
+    }
+    fn quant(&self, c: &QCase, l: &mut Local) {
+        self.watch.enter(c);
+        let r = eval_q(c);
+        self.watch.leave();
+        l.evals += 1;
+        match r {
+            Ok(info) => {
+                if info.pruned {
+                    l.pruned += 1;
+                }
+                if info.distinct <= c.size {
+                    l.exact += 1;
+                }
+                if c.pixels.iter().any(|p| p[3] < 255) {
+                    l.alpha += 1;
+                }
+                l.sizes |= 1u64 << info.palette.min(63);
+                if info.overpruned {
+                    l.overpruned += 1;
+                    let allowed = info.distinct.min(c.size.max(8)) as u64;
+                    let score = info.palette as u64 * 1000 / allowed;
+                    // cheap pre-filter: only candidates at least as drastic as the best so far
+                    if score <= self.worst_score.load(Ordering::Relaxed) {
+                        let cand = json!({"case": c.json(), "distinct_colours": info.distinct, "palette": info.palette, "allowed": allowed});
+                        let mut g = self.worst_overprune.lock().unwrap();
+                        let better = match &*g {
+                            None => true,
+                            Some((s, v)) => (score, cand.to_string().len(), cand.to_string()) < (*s, v.to_string().len(), v.to_string()),
+                        };
+                        if better {
+                            self.worst_score.fetch_min(score, Ordering::Relaxed);
+                            *g = Some((score, cand));
+                        }
+                    }
+                }
+                let hh = hash64(&(c.h, c.w, &c.pixels, c.size, c.dither, c.bg, c.crop));
+                if self.sample_filter.wants(hh) {
+                    if let Some(sm) = self.samples.lock().unwrap().as_ref() {
+                        sm.offer(hh, || json!({"case": c.json(), "distinct_colours": info.distinct, "palette_size": info.palette}));
+                    }
+                }
+            }
+            Err((kind, detail)) => {
+                self.add_ranked(format!("quantize:{}", kind), c.rank(), || {
+                    (
+                        format!(
+                            "{}x{} image, requested {}, dither {}, bg {:?}{}: {}",
+                            c.h, c.w, c.size, c.dither, c.bg, if c.crop { ", cropped" } else { "" }, detail
+                        ),
+                        c.json(),
+                    )
+                });
+            }
+        }
+    }
+    fn merge(&self, l: Local) {
+        self.q_evals.fetch_add(l.evals, Ordering::Relaxed);
+        self.q_pruned.fetch_add(l.pruned, Ordering::Relaxed);
+        self.q_overpruned.fetch_add(l.overpruned, Ordering::Relaxed);
+        self.q_exact_claims.fetch_add(l.exact, Ordering::Relaxed);
+        self.q_alpha.fetch_add(l.alpha, Ordering::Relaxed);
+        let mut g = self.palette_sizes_seen.lock().unwrap();
+        for b in 0..64 {
+            if l.sizes >> b & 1 == 1 {
+                g.insert(b);
+            }
+        }
+    }
+}
+
+// ---------------------------------------------------------------------------------------
+// (1a) all small images
+// ---------------------------------------------------------------------------------------
+
+fn arrangements(n: usize) -> Vec<(usize, usize)> {
+    (1..=n).filter(|h| n % h == 0).map(|h| (h, n / h)).collect()
+}
+
+fn sweep_small(sh: &Shared, tier: Tier) -> u64 {
+    let max_n = tier.pick(4, 6);
+    let nbg = tier.pick(2, 3);
+    let mut images = 0u64;
+    for n in 1..=max_n {
+        let total = 12u64.pow(n as u32);
+        images += total;
+        // the 6-pixel level of the thorough tier uses a reduced list of requested sizes: below 9
+        // distinct colours the requested size only selects the oracle branch
+        let sizes: Vec<usize> = if n >= 6 { vec![1, 3, 6, 256] } else { SIZES.to_vec() };
+        let crop_too = n <= tier.pick(3, 4);
+        (0..total).into_par_iter().for_each(|mut i| {
+            if sh.stop.load(Ordering::Relaxed) {
+                return;
+            }
+            let mut pixels = Vec::with_capacity(n);
+            for _ in 0..n {
+                pixels.push(ALPHABET[(i % 12) as usize]);
+                i /= 12;
+            }
+            let mut l = Local::default();
+            for (h, w) in arrangements(n) {
+                for crop in [false, true] {
+                    if crop && !crop_too {
+                        continue;
+                    }
+                    for size in &sizes {
+                        for dither in [false, true] {
+                            for bg in &BACKGROUNDS[..nbg] {
+                                let c = QCase { h, w, pixels: pixels.clone(), size: *size, dither, bg: *bg, crop };
+                                sh.quant(&c, &mut l);
+                            }
+                        }
+                    }
+                }
+            }
+            sh.merge(l);
+        });
+    }
+    images
+}
+
+// ---------------------------------------------------------------------------------------
+// (1b) multiset images: colour j occurs m_j times, m in 0..=maxmult
+// ---------------------------------------------------------------------------------------
+
+fn multiset_pixels(mut i: u64, radix: u64) -> Vec<[u8; 4]> {
+    let mut pixels = vec![];
+    for a in ALPHABET.iter() {
+        for _ in 0..(i % radix) {
+            pixels.push(*a);
+        }
+        i /= radix;
+    }
+    pixels
+}
+
+/// `full` = all MULTI_SIZES x dither x backgrounds; otherwise the pruning-relevant core only.
+fn sweep_multiset(sh: &Shared, radix: u64, full: bool, nbg: usize, only_new: bool) -> u64 {
+    let total = radix.pow(12);
+    let images = AtomicU64::new(0);
+    (1..total).into_par_iter().for_each(|i| {
+        if sh.stop.load(Ordering::Relaxed) {
+            return;
+        }
+        if only_new {
+            // skip images already covered by the radix-1 sweep (no multiplicity == radix-1)
+            let mut j = i;
+            let mut has = false;
+            for _ in 0..12 {
+                if j % radix == radix - 1 {
+                    has = true;
+                }
+                j /= radix;
+            }
+            if !has {
+                return;
+            }
+        }
+        let pixels = multiset_pixels(i, radix);
+        let n = pixels.len();
+        images.fetch_add(1, Ordering::Relaxed);
+        let mut l = Local::default();
+        // one row; for the full sweep also the most square arrangement
+        let mut arr = vec![(1, n)];
+        if full && nbg >= 3 {
+            if let Some(a) = arrangements(n).into_iter().filter(|(h, w)| h <= w).last() {
+                if a.0 > 1 {
+                    arr.push(a);
+                }
+            }
+        }
+        for (h, w) in arr {
+            if full {
+                for size in MULTI_SIZES {
+                    if nbg < 3 && size == 5 {
+                        continue; // quick tier: 1, 5 and 8 all prune to 8 leaves
+                    }
+                    for dither in [false, true] {
+                        for bg in &BACKGROUNDS[..nbg] {
+                            let c = QCase { h, w, pixels: pixels.clone(), size, dither, bg: *bg, crop: false };
+                            sh.quant(&c, &mut l);
+                        }
+                    }
+                }
+            } else {
+                for size in [8usize, 9, 10] {
+                    let c = QCase { h, w, pixels: pixels.clone(), size, dither: false, bg: None, crop: false };
+                    sh.quant(&c, &mut l);
+                }
+            }
+        }
+        sh.merge(l);
+    });
+    images.load(Ordering::Relaxed)
+}
+
+// ---------------------------------------------------------------------------------------
+// (1c) periodic images large enough to be subsampled
+// ---------------------------------------------------------------------------------------
+
+fn sweep_large(sh: &Shared) -> u64 {
+    let mut cases = vec![];
+    for (h, w) in [(1usize, 200usize), (200, 1), (10, 20), (20, 20), (2, 300), (17, 31)] {
+        for m in [1usize, 2, 3, 5, 12] {
+            for step in [1usize, 5] {
+                for phase in [0usize, 1] {
+                    let pixels: Vec<[u8; 4]> = (0..h * w).map(|i| ALPHABET[((i * step + phase) % m) % 12]).collect();
+                    for size in [1usize, 2] {
+                        for dither in [false, true] {
+                            for bg in &BACKGROUNDS[..2] {
+                                for crop in [false, true] {
+                                    cases.push(QCase { h, w, pixels: pixels.clone(), size, dither, bg: *bg, crop });
+                                }
+                            }
+                        }
+                    }
+                }
+            }
+        }
+    }
+    let n = cases.len() as u64;
+    cases.par_iter().for_each(|c| {
+        if sh.stop.load(Ordering::Relaxed) {
+            return;
+        }
+        let mut l = Local::default();
+        sh.quant(c, &mut l);
+        sh.merge(l);
+    });
+    n
+}
+
+// ---------------------------------------------------------------------------------------
+// (2) palettes and nearest-colour lookup
+// ---------------------------------------------------------------------------------------
+
+/// Some((kind, detail)) on violation.
+fn judge_find(colors: &[[u8; 3]], q: [u8; 3], got: (usize, RGBA), best: i64) -> Option<(String, String)> {
+    let (i, col) = got;
+    if i >= colors.len() {
+        return Some(("index-out-of-range".into(), format!("find({:?}) returned index {} of {}", q, i, colors.len())));
+    }
+    if col.to_rgb() != colors[i] {
+        return Some((
+            "colour-index-mismatch".into(),
+            format!("find({:?}) returned index {} ({:?}) together with colour {:?}", q, i, colors[i], col.to_rgb()),
+        ));
+    }
+    let d = dist(q, colors[i]);
+    if d != best {
+        return Some((
+            "not-nearest".into(),
+            format!("find({:?}) returned entry {} {:?} at squared distance {}, brute force finds {}", q, i, colors[i], d, best),
+        ));
+    }
+    None
+}
+
+fn find_witness(colors: &[[u8; 3]], q: [u8; 3], name: &str) -> Value {
+    json!({"kind": "find", "palette_name": name, "palette": colors.iter().map(|c| c.to_vec()).collect::<Vec<_>>(), "query": q.to_vec()})
+}
+
+fn eval_find(colors: &[[u8; 3]], q: [u8; 3]) -> Option<(String, String)> {
+    let pal = match catch(|| ColorPalette::new(colors.iter().map(|c| RGBA::new(c[0], c[1], c[2], 255)).collect())) {
+        Err(p) => return Some((p.key(), format!("ColorPalette::new panicked: {}", p.message))),
+        Ok(None) => return Some(("none-for-nonempty".into(), "ColorPalette::new returned None for a non-empty list".into())),
+        Ok(Some(p)) => p,
+    };
+    if pal.size() != colors.len() || pal.colors().iter().map(|c| c.to_rgb()).collect::<Vec<_>>() != colors {
+        return Some(("palette-content".into(), "colors()/size() differ from the list the palette was built from".into()));
+    }
+    let best = colors.iter().map(|c| dist(q, *c)).min().unwrap();
+    match catch(|| pal.find(RGBA::new(q[0], q[1], q[2], 255))) {
+        Err(p) => Some((p.key(), format!("find panicked: {} ({}:{})", p.message, p.file, p.line))),
+        Ok(got) => judge_find(colors, q, got, best),
+    }
+}
+
+fn sweep_small_palettes(sh: &Shared) -> (u64, u64) {
+    let lat: Vec<[u8; 3]> = {
+        let l = [0u8, 85, 170, 255];
+        let mut v = vec![];
+        for r in l {
+            for g in l {
+                for b in l {
+                    v.push([r, g, b]);
+                }
+            }
+        }
+        v
+    };
+    let queries: Vec<[u8; 3]> = {
+        let l = [0u8, 64, 128, 192, 255];
+        let mut v = vec![];
+        for r in l {
+            for g in l {
+                for b in l {
+                    v.push([r, g, b]);
+                }
+            }
+        }
+        v
+    };
+    let n = lat.len() as u64;
+    let total = n + n * n + n * n * n;
+    let evals = AtomicU64::new(0);
+    (0..total).into_par_iter().for_each(|i| {
+        let colors: Vec<[u8; 3]> = if i < n {
+            vec![lat[i as usize]]
+        } else if i < n + n * n {
+            let j = i - n;
+            vec![lat[(j % n) as usize], lat[(j / n) as usize]]
+        } else {
+            let j = i - n - n * n;
+            vec![lat[(j % n) as usize], lat[(j / n % n) as usize], lat[(j / n / n) as usize]]
+        };
+        let pal = match catch(|| ColorPalette::new(colors.iter().map(|c| RGBA::new(c[0], c[1], c[2], 255)).collect())) {
+            Ok(Some(p)) => p,
+            _ => {
+                if let Some((kind, detail)) = eval_find(&colors, queries[0]) {
+                    sh.add_find(&kind, &colors, queries[0], "lattice", detail);
+                }
+                return;
+            }
+        };
+        let mut nt = 0u64;
+        let mut ties = 0u64;
+        for q in &queries {
+            let best = colors.iter().map(|c| dist(*q, *c)).min().unwrap();
+            let r = match catch(|| pal.find(RGBA::new(q[0], q[1], q[2], 255))) {
+                Err(p) => Some((p.key(), format!("find panicked: {}", p.message))),
+                Ok(got) => judge_find(&colors, *q, got, best),
+            };
+            if let Some((kind, detail)) = r {
+                sh.add_find(&kind, &colors, *q, "lattice", detail);
+            }
+            if best > 0 {
+                nt += 1;
+            }
+            if colors.iter().filter(|c| dist(*q, **c) == best).count() > 1 {
+                ties += 1;
+            }
+        }
+        evals.fetch_add(queries.len() as u64, Ordering::Relaxed);
+        sh.find_nontrivial.fetch_add(nt, Ordering::Relaxed);
+        sh.find_ties.fetch_add(ties, Ordering::Relaxed);
+    });
+    (total, evals.load(Ordering::Relaxed))
+}
+
+pub fn xterm256() -> Vec<[u8; 3]> {
+    let mut v: Vec<[u8; 3]> = vec![
+        [0, 0, 0], [205, 0, 0], [0, 205, 0], [205, 205, 0], [0, 0, 238], [205, 0, 205], [0, 205, 205], [229, 229, 229],
+        [127, 127, 127], [255, 0, 0], [0, 255, 0], [255, 255, 0], [92, 92, 255], [255, 0, 255], [0, 255, 255], [255, 255, 255],
+    ];
+    let l = [0u8, 95, 135, 175, 215, 255];
+    for r in l {
+        for g in l {
+            for b in l {
+                v.push([r, g, b]);
+            }
+        }
+    }
+    for i in 0..24u8 {
+        let g = 8 + 10 * i;
+        v.push([g, g, g]);
+    }
+    v
+}
+
+pub fn structured_palettes() -> Vec<(&'static str, Vec<[u8; 3]>)> {
+    let mut out: Vec<(&'static str, Vec<[u8; 3]>)> = vec![("xterm-256", xterm256())];
+    out.push(("clustered-16", (0..16u8).map(|i| [100 + i % 4, 100 + i / 4, 100]).collect()));
+    out.push(("all-equal-40", vec![[7, 7, 7]; 40]));
+    out.push(("two-point", vec![[0, 0, 0], [255, 255, 255]]));
+    let l8 = [0u8, 36, 73, 109, 146, 182, 219, 255];
+    let mut lat = vec![];
+    for r in l8 {
+        for g in l8 {
+            for b in l8 {
+                lat.push([r, g, b]);
+            }
+        }
+    }
+    out.push(("lattice-512", lat));
+    let mut dup = vec![[10u8, 20, 30]; 200];
+    for i in 0..56u32 {
+        dup.push([(i * 37 % 256) as u8, (i * 101 % 256) as u8, (i * 53 % 256) as u8]);
+    }
+    out.push(("duplicates-200-of-256", dup));
+    out.push(("grey-ramp-256", (0..=255u8).map(|i| [i, i, i]).collect()));
+    let mut plane = vec![];
+    for g in 0..8u8 {
+        for b in 0..8u8 {
+            plane.push([128, g * 36, 255 - b * 36]);
+        }
+    }
+    out.push(("constant-red-plane-64", plane));
+    out
+}
+
+/// all 2^24 queries against brute force
+fn sweep_full_queries(sh: &Shared, name: &'static str, colors: &[[u8; 3]]) -> u64 {
+    let pal = match catch(|| ColorPalette::new(colors.iter().map(|c| RGBA::new(c[0], c[1], c[2], 255)).collect())) {
+        Ok(Some(p)) => p,
+        _ => {
+            if let Some((kind, detail)) = eval_find(colors, [0, 0, 0]) {
+                sh.add_find(&kind, colors, [0, 0, 0], name, detail);
+            }
+            return 0;
+        }
+    };
+    if pal.size() != colors.len() || pal.colors().iter().map(|c| c.to_rgb()).collect::<Vec<_>>() != colors {
+        sh.add_find("palette-content", colors, [0, 0, 0], name, "colors()/size() differ from the input".to_string());
+        return 0;
+    }
+    let cr: Vec<i32> = colors.iter().map(|c| c[0] as i32).collect();
+    let cg: Vec<i32> = colors.iter().map(|c| c[1] as i32).collect();
+    let cb: Vec<i32> = colors.iter().map(|c| c[2] as i32).collect();
+    // one work item = one (r, g) pair, all 256 b
+    (0..65536u32).into_par_iter().with_min_len(16).for_each(|rg| {
+        let (r, g) = ((rg >> 8) as u8, (rg & 255) as u8);
+        let mut nt = 0u64;
+        let mut ties = 0u64;
+        // squared distance restricted to r,g once per palette entry
+        let base: Vec<i32> = (0..colors.len()).map(|j| (r as i32 - cr[j]).pow(2) + (g as i32 - cg[j]).pow(2)).collect();
+        for b in 0..=255u8 {
+            let mut best = i32::MAX;
+            let mut cnt = 0u32;
+            for j in 0..colors.len() {
+                let d = base[j] + (b as i32 - cb[j]).pow(2);
+                if d < best {
+                    best = d;
+                    cnt = 1;
+                } else if d == best {
+                    cnt += 1;
+                }
+            }
+            let q = [r, g, b];
+            let res = match catch(|| pal.find(RGBA::new(r, g, b, 255))) {
+                Err(p) => Some((p.key(), format!("find panicked: {} ({}:{})", p.message, p.file, p.line))),
+                Ok(got) => judge_find(colors, q, got, best as i64),
+            };
+            if let Some((kind, detail)) = res {
+                sh.add_find(&kind, colors, q, name, detail);
+            }
+            if best > 0 {
+                nt += 1;
+            }
+            if cnt > 1 {
+                ties += 1;
+            }
+        }
+        sh.find_nontrivial.fetch_add(nt, Ordering::Relaxed);
+        sh.find_ties.fetch_add(ties, Ordering::Relaxed);
+    });
+    1 << 24
+}
+
+fn cpu_secs() -> f64 {
+    let mut ts = libc::timespec { tv_sec: 0, tv_nsec: 0 };
+    unsafe { libc::clock_gettime(libc::CLOCK_PROCESS_CPUTIME_ID, &mut ts) };
+    ts.tv_sec as f64 + ts.tv_nsec as f64 * 1e-9
+}
+
+// ---------------------------------------------------------------------------------------
+// driver
+// ---------------------------------------------------------------------------------------
+
+struct Sizes {
+    small_images: u64,
+    multiset_images: u64,
+    multiset_extra_images: u64,
+    large_cases: u64,
+    small_palettes: u64,
+    small_palette_queries: u64,
+    full_query_palettes: Vec<(String, usize)>,
+    completed: Vec<&'static str>,
+}
+
+fn sweep_all(sh: &Shared, ctx: &Ctx) -> Sizes {
+    let tier = ctx.tier;
+    let mut s = Sizes {
+        small_images: 0,
+        multiset_images: 0,
+        multiset_extra_images: 0,
+        large_cases: 0,
+        small_palettes: 0,
+        small_palette_queries: 0,
+        full_query_palettes: vec![],
+        completed: vec![],
+    };
+    let live = |sh: &Shared| !sh.stop.load(Ordering::Relaxed) && !ctx.over_cap();
+    // (2a)
+    let (p, q) = sweep_small_palettes(sh);
+    s.small_palettes = p;
+    s.small_palette_queries = q;
+    sh.find_evals.fetch_add(q, Ordering::Relaxed);
+    s.completed.push("2a-lattice-palettes");
+        sh.phase_secs.lock().unwrap().push(("2a-lattice-palettes".to_string(), cpu_secs()));
+    // (2b)
+    for (name, colors) in structured_palettes() {
+        if !live(sh) {
+            return s;
+        }
+        // quick: the xterm palette and the small degenerate ones; thorough: all eight
+        if tier == Tier::Quick && colors.len() > 64 && name != "xterm-256" {
+            continue;
+        }
+        let n = sweep_full_queries(sh, name, &colors);
+        sh.find_evals.fetch_add(n, Ordering::Relaxed);
+        s.full_query_palettes.push((name.to_string(), colors.len()));
+    }
+    s.completed.push("2b-structured-palettes-all-queries");
+        sh.phase_secs.lock().unwrap().push(("2b-structured-palettes-all-queries".to_string(), cpu_secs()));
+    // (1c)
+    if !live(sh) {
+        return s;
+    }
+    s.large_cases = sweep_large(sh);
+    s.completed.push("1c-subsampled-images");
+        sh.phase_secs.lock().unwrap().push(("1c-subsampled-images".to_string(), cpu_secs()));
+    // (1a)
+    if !live(sh) {
+        return s;
+    }
+    s.small_images = sweep_small(sh, tier);
+    if live(sh) {
+        s.completed.push("1a-small-images");
+        sh.phase_secs.lock().unwrap().push(("1a-small-images".to_string(), cpu_secs()));
+    }
+    // (1b)
+    if !live(sh) {
+        return s;
+    }
+    s.multiset_images = sweep_multiset(sh, 3, true, tier.pick(2, 3), false);
+    if live(sh) {
+        s.completed.push("1b-multiset-images-mult<=2");
+        sh.phase_secs.lock().unwrap().push(("1b-multiset-images-mult<=2".to_string(), cpu_secs()));
+    }
+    if tier == Tier::Thorough && live(sh) {
+        s.multiset_extra_images = sweep_multiset(sh, 4, false, 1, true);
+        if live(sh) {
+            s.completed.push("1b-multiset-images-mult<=3-core");
+        sh.phase_secs.lock().unwrap().push(("1b-multiset-images-mult<=3-core".to_string(), cpu_secs()));
+        }
+    }
+    s
+}
+
+pub fn run(ctx: &Ctx) -> Result<Report, String> {
+    let sh = Arc::new(Shared {
+        best: Default::default(),
+        raw_viol: AtomicU64::new(0),
+        samples: Mutex::new(Some(Samples::new(ctx.seed))),
+        sample_filter: Samples::new(ctx.seed),
+        watch: Watch::new(ctx.threads.max(rayon::current_num_threads()) + 1),
+        seed: ctx.seed,
+        q_evals: AtomicU64::new(0),
+        q_pruned: AtomicU64::new(0),
+        q_overpruned: AtomicU64::new(0),
+        q_exact_claims: AtomicU64::new(0),
+        q_alpha: AtomicU64::new(0),
+        find_evals: AtomicU64::new(0),
+        find_nontrivial: AtomicU64::new(0),
+        find_ties: AtomicU64::new(0),
+        worst_overprune: Mutex::new(None),
+        worst_score: AtomicU64::new(u64::MAX),
+        phase_secs: Mutex::new(vec![]),
+        palette_sizes_seen: Mutex::new(Default::default()),
+        stop: AtomicBool::new(false),
+    });
+    // the sweeps run in their own thread; this thread is the watchdog
+    let (tx, rx) = mpsc::channel();
+    {
+        let sh = sh.clone();
+        let ctx2 = ctx.clone();
+        std::thread::Builder::new()
+            .stack_size(16 << 20)
+            .spawn(move || {
+                let r = catch(|| sweep_all(&sh, &ctx2));
+                let _ = tx.send(r);
+            })
+            .map_err(|e| e.to_string())?;
+    }
+    let mut hang: Option<QCase> = None;
+    let sizes = loop {
+        match rx.recv_timeout(Duration::from_millis(500)) {
+            Ok(Ok(s)) => break Some(s),
+            Ok(Err(p)) => return Err(format!("sweep panicked: {:?}", p)),
+            Err(mpsc::RecvTimeoutError::Timeout) => {
+                if let Some(c) = sh.watch.stuck() {
+                    // confirm in a fresh thread before calling it a verdict
+                    match eval_q_timed(&c, HANG_SECS) {
+                        None => {
+                            hang = Some(c);
+                            sh.stop.store(true, Ordering::Relaxed);
+                            break None;
+                        }
+                        Some(_) => {
+                            return Err(format!(
+                                "a worker sat on case {} for more than {HANG_SECS}s but the case finishes on its own: machine too loaded (machinery failure)",
+                                c.json()
+                            ));
+                        }
+                    }
+                }
+            }
+            Err(mpsc::RecvTimeoutError::Disconnected) => return Err("sweep thread vanished".into()),
+        }
+    };
+    if let Some(c) = &hang {
+        sh.add_ranked("quantize:hang".to_string(), c.rank(), || {
+            (
+                format!(
+                    "quantize did not return within {HANG_SECS}s (twice): {}x{} image, requested {}, dither {}",
+                    c.h, c.w, c.size, c.dither
+                ),
+                c.json(),
+            )
+        });
+    }
+    let capped = sizes.is_none() || ctx.over_cap();
+    let q = sh.q_evals.load(Ordering::Relaxed);
+    let f = sh.find_evals.load(Ordering::Relaxed);
+    let pruned = sh.q_pruned.load(Ordering::Relaxed);
+    let fnt = sh.find_nontrivial.load(Ordering::Relaxed);
+    let mut r = Report::new("exploration");
+    r.set("evaluations", q + f)
+        .set("distinct_nontrivial", pruned + fnt)
+        .set(
+            "rule",
+            "cases are (image pixels, arrangement, crop, requested size, dither, background) and (palette, query), all distinct by \
+             construction; a quantisation is non-trivial when the octree had to be pruned (more distinct composited colours than \
+             max(requested, 8), image not subsampled); a lookup is non-trivial when the query is not itself a palette colour",
+        )
+        .set("quantisations", q)
+        .set("quantisations_with_pruning", pruned)
+        .set("quantisations_with_exactness_claim", sh.q_exact_claims.load(Ordering::Relaxed))
+        .set("quantisations_with_alpha", sh.q_alpha.load(Ordering::Relaxed))
+        .set("lookups", f)
+        .set("lookups_query_not_in_palette", fnt)
+        .set("lookups_with_tied_nearest", sh.find_ties.load(Ordering::Relaxed))
+        .set(
+            "palette_sizes_seen",
+            sh.palette_sizes_seen.lock().unwrap().iter().map(|x| json!(x)).collect::<Vec<_>>(),
+        )
+        .set("lead_overpruned_quantisations", sh.q_overpruned.load(Ordering::Relaxed))
+        .set(
+            "lead_overpruned_worst",
+            sh.worst_overprune.lock().unwrap().as_ref().map(|(_, v)| v.clone()).unwrap_or(Value::Null),
+        )
+        .set("exhaustive", !capped)
+        .set("capped", capped)
+        .set("alphabet", ALPHABET.iter().map(|c| json!(c.to_vec())).collect::<Vec<_>>())
+        .set("watchdog_seconds", HANG_SECS)
+        .set("phase_done_at_cpu_s", sh.phase_secs.lock().unwrap().iter().map(|(n, t)| json!({"phase": n, "t": (t * 10.0).round() / 10.0})).collect::<Vec<_>>());
+    if let Some(s) = &sizes {
+        r.set("small_images", s.small_images)
+            .set("multiset_images_mult_le_2", s.multiset_images)
+            .set("multiset_images_with_a_mult_3_core_only", s.multiset_extra_images)
+            .set("subsampled_cases", s.large_cases)
+            .set("lattice_palettes", s.small_palettes)
+            .set("lattice_palette_queries", s.small_palette_queries)
+            .set(
+                "structured_palettes_all_2^24_queries",
+                s.full_query_palettes.iter().map(|(n, k)| json!({"name": n, "colours": k})).collect::<Vec<_>>(),
+            )
+            .set("completed", s.completed.iter().map(|x| json!(x)).collect::<Vec<_>>());
+    }
+    r.assume("alpha compositing is rasterize::Color::blend_over (external crate), as called by the library; the oracle composites with the same function");
+    r.assume("'Euclidean RGB distance' is compared as squared distance on the 8-bit sRGB components");
+    r.assume("which of several equidistant palette entries is returned is not checked");
+    r.assume("a palette smaller than necessary is allowed by the statement; over-pruning is counted (lead_overpruned_*) but is not a violation");
+    r.assume("with dithering only palette bound, index validity and (when the colours fit) exact reproduction are checked");
+    let mut viols: Vec<Violation> = sh.best.read().unwrap().values().map(|(_, v)| v.clone()).collect();
+    viols.sort_by(|a, b| a.key.cmp(&b.key));
+    let samples = sh.samples.lock().unwrap().take().ok_or("samples already taken")?;
+    r.set("raw_violations", sh.raw_viol.load(Ordering::Relaxed));
+    r.set("samples", samples.into_vec());
+    r.violations = viols;
+    Ok(r)
+}
+
+pub fn replay(w: &Value) -> Result<(bool, String), String> {
+    match w["kind"].as_str() {
+        Some("quantize") => {
+            let c = QCase::from_json(w)?;
+            let comp = c.composited();
+            let head = format!(
+                "quantize {}x{} requested {} dither {} bg {:?} crop {}; composited pixels {:?}\n",
+                c.h, c.w, c.size, c.dither, c.bg, c.crop, comp
+            );
+            match eval_q_timed(&c, HANG_SECS) {
+                None => Ok((true, format!("{head}expected: returns; observed: no result within {HANG_SECS}s (hang)"))),
+                Some(Err((kind, detail))) => Ok((true, format!("{head}[{kind}] {detail}"))),
+                Some(Ok(info)) => Ok((
+                    false,
+                    format!(
+                        "{head}palette of {} colours for {} distinct colours (allowed 1..={}); all checks hold",
+                        info.palette, info.distinct, c.size.max(8)
+                    ),
+                )),
+            }
+        }
+        Some("find") => {
+            let colors: Vec<[u8; 3]> = w["palette"]
+                .as_array()
+                .ok_or("palette")?
+                .iter()
+                .map(|c| [c[0].as_u64().unwrap_or(0) as u8, c[1].as_u64().unwrap_or(0) as u8, c[2].as_u64().unwrap_or(0) as u8])
+                .collect();
+            let q = &w["query"];
+            let q = [q[0].as_u64().ok_or("query")? as u8, q[1].as_u64().ok_or("query")? as u8, q[2].as_u64().ok_or("query")? as u8];
+            let best = colors.iter().map(|c| dist(q, *c)).min().ok_or("empty palette")?;
+            let head = format!("find({:?}) in a palette of {} colours; expected: an entry at squared distance {}\n", q, colors.len(), best);
+            match eval_find(&colors, q) {
+                Some((kind, detail)) => Ok((true, format!("{head}[{kind}] {detail}"))),
+                None => Ok((false, format!("{head}library returns an entry at that distance"))),
+            }
+        }
+        _ => Err("witness kind must be quantize or find".into()),
+    }
 }
